@@ -25,6 +25,14 @@ def facts(t):
         if name == "Not":
             kt, kf, at = facts(ops[0])
             return kf, kt, at
+        if name in ("And", "Or"):
+            # operands that are literal constants (flags of inlined helpers) do not take part in the decision
+            neutral = ("const", "True") if name == "And" else ("const", "False")
+            ops = tuple(o for o in ops if o != neutral)
+            if len(ops) == 1:
+                return facts(ops[0])
+            if not ops:
+                return set(), set(), set()
         if name == "And":
             kt, atoms = set(), set()
             parts = [facts(o) for o in ops]
